@@ -9,6 +9,7 @@ from ..datatypes import BooleanType
 @dataclass
 class Case:
     path: str        # case path up to last @ sign
+    indent: int      # indent of the case clause
     value: bool      # final value of the case
     code: str        # code line with the case
     expr: str        # case expression
@@ -91,6 +92,14 @@ class BranchingList:
                 return True
         return False
         
+    def close_cases(self, node):
+        """ Close all branches whose cases end at the indent of a node
+
+        :param node: Node that is not a condition
+        """
+        while self.state and node.indent<=self.cases[self._get_case_id()].indent:
+            self._close_branch()
+        
     def solve_case(self, node):
         """ Manage condition nodes
 
@@ -129,6 +138,7 @@ class BranchingList:
             branch_id = self._get_branch_id()
             self.cases[case_id] = Case(
                 path        = path_new,          # path of a new case
+                indent      = node.indent,       # indent of a new case
                 code        = node.code,         # code line
                 expr        = node.value_expr,   # case logical expression
                 value       = node.value,        # boolean value true/false
@@ -147,9 +157,7 @@ class BranchingList:
         """
         if not self.state: # outside of any condition
             return
-        case = self._get_case_id()
-        if not node.name.startswith(self.cases[case].path): # ending case at lower indent
-            self._close_branch()
+        self.close_cases(node)  # ending cases at lower indent
         if self.state:
             node.branch_id = self._get_branch_id()
             node.case_id   = self._get_case_id()
